@@ -43,7 +43,78 @@ var glPool = []string{`a`, `*/b`, `**/node_modules`, `a*`, `{a,b}`, `sp ace`, `*
 
 type gen struct {
 	r    *rand.Rand
+	r2   *rand.Rand // choices of the VARIANTS (variant): a separate stream, so that the base cases of every mode stay what they were
 	mode string
+}
+
+// variant turns a small share of the cases into one of the input shapes the plain generator never produces:
+//   - directory handles without fs.ReadDirFile (the walk falls back to fsys.ReadDir): only "read 0" faults exist then
+//   - no filesystem extractor at all (filesystem.Run returns at once: nothing is walked, limits and faults never apply)
+//   - no scan root; requested paths together with several roots; (absolute roots) a skipped directory under no root: the scan is refused
+//   - (mode plain) the tree materialised in a temporary directory and scanned through scalibrfs.RealFSScanRoots
+func (g *gen) variant(c *wc.Case) {
+	r := g.r2
+	noFaults := true
+	for _, rt := range c.Roots {
+		if len(rt.F.Open)+len(rt.F.Stat)+len(rt.F.FileStat)+len(rt.F.Read) > 0 {
+			noFaults = false
+		}
+	}
+	switch k := r.Intn(48); {
+	case k < 4: // 1/12
+		c.NRD = 1
+		for _, rt := range c.Roots {
+			for d, ks := range rt.F.Read {
+				for i := range ks {
+					if i != 0 {
+						delete(rt.F.Read[d], i)
+					}
+				}
+				if len(rt.F.Read[d]) == 0 {
+					delete(rt.F.Read, d)
+				}
+			}
+		}
+	case k < 6:
+		c.NExt, c.Req, c.Ext, c.ExtOrder = 0, nil, map[wc.EP]wc.Out{}, nil
+	case k == 6:
+		c.Roots = nil
+	case k == 7 || k == 8:
+		if len(c.Paths) > 0 && len(c.Roots) == 1 {
+			c.Roots = append(c.Roots, wc.Root{Tree: g.treeFrom(r), F: wc.Faults{Open: map[string]bool{}, Stat: map[string]bool{}, FileStat: map[string]bool{}, Read: map[string]map[int]bool{}}})
+			c.SAP = false
+		}
+	case k == 9 || k == 10:
+		if c.ABS {
+			c.OUT = 1
+			if len(c.Roots) == 1 && r.Intn(2) == 0 { // a requested path under no root (requested paths need a single root)
+				c.OUT = 2
+			}
+		}
+	case k < 15: // 4/48
+		if g.mode == "plain" && noFaults && len(c.Roots) == 1 {
+			c.REAL, c.ABS = true, false
+			var fix func(n *wc.Node)
+			fix = func(n *wc.Node) {
+				if n.Kind == 'L' { // a link to a directory would report the target directory's size: keep to links to files
+					n.Kind = 'l'
+				}
+				for _, k := range n.Kids {
+					fix(k)
+				}
+			}
+			fix(c.Roots[0].Tree)
+		}
+	}
+}
+
+// treeFrom builds a small extra tree with the variant stream's own randomness.
+func (g *gen) treeFrom(r *rand.Rand) *wc.Node {
+	save := g.r
+	g.r = r
+	t := g.tree(2, 6)
+	g.r = save
+	return t
 }
 
 func (g *gen) tree(maxDepth, maxNodes int) *wc.Node {
@@ -616,11 +687,15 @@ func main() {
 	if o.Replay != "" {
 		for _, l := range hx.ReplayLines(o.Replay) {
 			c := wc.ParseLine(l)
-			out.Emit(l, replayCase(c))
+			reply := replayCase(c)
+			if c.REAL { // the listing order is the operating system's: print the case as it was scanned
+				l = c.Line()
+			}
+			out.Emit(l, reply)
 		}
 		return
 	}
-	g := &gen{r: hx.Rng(o), mode: *mode}
+	g := &gen{r: hx.Rng(o), r2: rand.New(rand.NewSource(o.Seed*7919 + 13)), mode: *mode}
 	switch *mode {
 	case "mixed", "plain", "perm", "subdir", "faults", "faultsx", "faultsq", "limits":
 	default:
@@ -651,6 +726,29 @@ func main() {
 			continue
 		}
 		if *mode == "perm" {
+			// every third group additionally carries 0-2 faults that do not depend on listing positions (no k-th read faults), half of those
+			// with ErrorOnFSErrors; every fourth group an inode limit: error class, visited count and — when the scan succeeds — results
+			// must not depend on the listing order either
+			if i%3 == 1 {
+				g.randFaults(c)
+				g.errKind(c)
+				for j := range c.Roots {
+					for d := range c.Roots[j].F.Read {
+						delete(c.Roots[j].F.Read, d)
+					}
+				}
+				c.EOFS = g.r2.Intn(2) == 0
+			}
+			if i%4 == 3 {
+				var ds, fs []string
+				for _, rt := range c.Roots {
+					collect(rt.Tree, &ds, &fs)
+				}
+				c.MI = 1 + g.r2.Intn(len(ds)+len(fs)+2)
+			}
+			if i%5 == 4 { // directory handles without ReadDirFile (the listing is preloaded by fsys.ReadDir): order independence holds there too
+				c.NRD = 1
+			}
 			// the same content under 5 listing orders; roots keep their order
 			for how := 0; how < 5; how++ {
 				v := *c
@@ -667,6 +765,7 @@ func main() {
 			}
 			continue
 		}
+		g.variant(c)
 		reply := runCase(c)
 		out.Emit(c.Line(), reply)
 	}
